@@ -73,6 +73,9 @@ by running the real passes in the other order (vlib/props/c09_order.py `permuted
   field behind a root model (nullable enum, alias definition) refers to the Enum only after the root has been folded in.
 * `extractInheritedEnum → setDefaultEnumMember`: a model that merely inherits from an enum (`allOf: [{$ref: E}, {…}]`) is an
   Enum model only after `__extract_inherited_enum`; before, `isinstance(source, Enum)` fails and the default stays raw.
+* `reuseModel → collapseRootModels`: the data type `__collapse_root_models` puts into the field is a `DataType.copy()` of the root's
+  type, which is not registered with the reference it points to; `__reuse_model` re-points registered users only
+  (`reference.children`), so a duplicate dropped AFTER the fold stays in the field (`s: Optional[Tint] = Tint.q`, no class `Tint`).
 * `setReferenceDefaultValueToField → collapseRootModels`: the default lives on the root model; once the reference to the root
   has been replaced by the root's type there is nothing to take it from (the field gets `= None`).
 * `reuseModel → changeFieldName`, `collapseRootModels → changeFieldName`: (pydantic v2) a field is renamed when its name is the
@@ -91,6 +94,7 @@ def constraints : List (Pass × Pass) :=
    (reuseModel, setDefaultEnumMember),
    (collapseRootModels, setDefaultEnumMember),
    (extractInheritedEnum, setDefaultEnumMember),
+   (reuseModel, collapseRootModels),
    (setReferenceDefaultValueToField, collapseRootModels),
    (reuseModel, changeFieldName),
    (collapseRootModels, changeFieldName),
@@ -107,19 +111,24 @@ def orderOk (cs : List Call) : Bool :=
 def firstViolated (cs : List Call) : Option (Pass × Pass) :=
   constraints.find? (fun ab => !(before ab.1 ab.2 (cs.map (·.pass))))
 
-/-- the part of `orderOk` the abstract semantics below needs: the three restructuring passes run before the one conversion -/
+/-- the part of `orderOk` the abstract semantics below needs: the three restructuring passes run before the one conversion,
+and duplicates are merged before roots are folded -/
 def coreOk (ps : List Pass) : Bool :=
   before .setReferenceDefaultValueToField .setDefaultEnumMember ps &&
   before .reuseModel .setDefaultEnumMember ps &&
-  before .collapseRootModels .setDefaultEnumMember ps
+  before .collapseRootModels .setDefaultEnumMember ps &&
+  before .reuseModel .collapseRootModels ps
 
 /-! ### Part 2: abstract semantics of the four passes -/
 
-/-- what a field's data type refers to: an Enum model, or a root model (the `Optional[XEnum]` wrapper of a string enum with
-a null entry, an alias definition `{$ref: enum}`) -/
+/-- what a field's data type refers to: an Enum model; a root model (the `Optional[XEnum]` wrapper of a string enum with
+a null entry, an alias definition `{$ref: enum}`); or an Enum model through the data type that `__collapse_root_models`
+COPIED out of a root model — `DataType.copy()` does not register the copy with the reference, so `replace_reference`
+(`__reuse_model`) never reaches it -/
 inductive Ty where
   | enum (c : Nat)
   | root (r : Nat)
+  | copy (c : Nat)
   deriving DecidableEq, Repr
 
 /-- a field's default: none, the raw JSON value `v`, or the `Member` of class `c` for value `v` -/
@@ -173,10 +182,12 @@ def surv (cls : List Cls) (c : Nat) : Nat :=
 
 def survTy (cls : List Cls) : Ty → Ty
   | .enum c => .enum (surv cls c)
-  | t => t
+  | .root r => .root r
+  | .copy c => .copy c
 
 /-- `__reuse_model` on Enum models: every class is replaced by its survivor (a duplicate no longer occurs), the data
-types of fields and root models are re-pointed (`child.replace_reference`), DEFAULTS ARE NOT TOUCHED -/
+types of fields and root models are re-pointed (`child.replace_reference` on the registered users), copies made by
+`__collapse_root_models` and DEFAULTS ARE NOT TOUCHED -/
 def reuseStep (s : St) : St :=
   { classes := s.classes.map (fun k => { k with id := surv s.classes k.id }),
     roots := s.roots.map (fun r => { r with target := surv s.classes r.target }),
@@ -189,9 +200,10 @@ def collapseField (rs : List Root) (f : Field) : Field :=
   match f.ty with
   | .root r =>
     match findRoot rs r with
-    | some rt => { f with ty := .enum rt.target }
+    | some rt => { f with ty := .copy rt.target }
     | none => f
   | .enum _ => f
+  | .copy _ => f
 
 def collapseStep (s : St) : St := { s with fields := s.fields.map (collapseField s.roots) }
 
@@ -214,6 +226,7 @@ member of THAT model (every default here names an entry: the hypothesis of the p
 def sdemField (f : Field) : Field :=
   match f.ty, f.dflt with
   | .enum c, .raw v => { f with dflt := .member c v }
+  | .copy c, .raw v => { f with dflt := .member c v }
   | _, _ => f
 
 def sdemStep (s : St) : St := { s with fields := s.fields.map sdemField }
@@ -234,6 +247,7 @@ def run (o : Opts) : List Pass → St → St
 def fieldWf (cls : List Cls) (f : Field) : Bool :=
   (match f.ty with
    | .enum c => live cls c
+   | .copy c => live cls c
    | .root _ => true) &&
   (match f.dflt with
    | .member _ _ => false
@@ -242,12 +256,20 @@ def fieldWf (cls : List Cls) (f : Field) : Bool :=
 def wf (s : St) : Bool :=
   s.fields.all (fieldWf s.classes) && s.roots.all (fun r => live s.classes r.target)
 
-/-- THE PROPERTY on a field whose data type is an Enum class: its default is not a raw value, and a member default is a
+/-- no data type is a copy made by `__collapse_root_models` (true of what the parser hands to the loop) -/
+def noCopies (s : St) : Bool :=
+  s.fields.all (fun f => match f.ty with
+    | .copy _ => false
+    | _ => true)
+
+/-- THE PROPERTY on a field whose data type is an Enum class (directly, or through a folded root): its default is not a raw value, and a member default is a
 member of that class, which is a class of the module -/
 def fieldGood (cls : List Cls) (f : Field) : Bool :=
   match f.ty, f.dflt with
   | .enum _, .raw _ => false
+  | .copy _, .raw _ => false
   | .enum c, .member c' _ => c' == c && live cls c
+  | .copy c, .member c' _ => c' == c && live cls c
   | .root _, .member _ _ => false
   | _, _ => true
 
@@ -257,13 +279,14 @@ def good (s : St) : Bool := s.fields.all (fieldGood s.classes)
 def rootsKnown (s : St) : Bool :=
   s.fields.all (fun f => match f.ty with
     | .root r => (findRoot s.roots r).isSome
-    | .enum _ => true)
+    | _ => true)
 
 /-- the property when the roots are folded away: EVERY default is a member of its field's (live) class -/
 def fieldAllMember (cls : List Cls) (f : Field) : Bool :=
   match f.ty, f.dflt with
   | _, .none => true
   | .enum c, .member c' _ => c' == c && live cls c
+  | .copy c, .member c' _ => c' == c && live cls c
   | _, _ => false
 
 def allMember (s : St) : Bool := s.fields.all (fieldAllMember s.classes)
